@@ -4,7 +4,7 @@
    OCaml glue is a 60-line tokenizer/printer and nothing else. *)
 From Coq Require Import ZArith List Bool.
 Import ListNotations.
-Open Scope Z_scope.
+Local Open Scope Z_scope.
 
 Inductive sx := I (z : Z) | L (l : list sx).
 
